@@ -665,6 +665,13 @@ Definition spec_step_f (c : cfg) (st : astate) (nx : N) (fuse : option N) (o : o
   | Some k =>
       match o with
       | OClear _ v => sp_clear_f c st nx v k
+      | ODropVec v =>
+          (* the vector is dropped: as clear, and the storage is released also when a destructor panics *)
+          match sp_clear_f c st nx v k with
+          | Some r => Some {| s_out := s_out r; s_pk := s_pk r; s_ret := s_ret r; s_evs := s_evs r;
+                              s_st := set_a v None st; s_nx := s_nx r |}
+          | None => None
+          end
       | OPop _ v KDrop => sp_take_drop_f c st nx v TPop 0 k
       | ORemove _ v idx KDrop => sp_take_drop_f c st nx v TRemove idx k
       | OSwapRemove _ v idx KDrop => sp_take_drop_f c st nx v TSwapRemove idx k
